@@ -685,14 +685,15 @@ def leaf_wrong(reg, d):
     k = d["kind"]
     if k == "int":
         return [True, False, 1.0, 1.5, -0.0, 2147483648.0, "12", " 7 ", "1e3", "1.5", "abc", "", "1_0", [1], [], {}, {"a": 1},
-                float("inf"), float("nan"), "inf", "nan", "1e999"]
+                float("inf"), float("nan"), "inf", "nan", "1e999", 10 ** 400, -(10 ** 400)]
     if k == "float":
-        return [float("inf"), float("-inf"), float("nan"), "inf", "-inf", "nan", "Infinity", "1e999", True, "1.5", "1e3", "x", "",
+        return [float("inf"), float("-inf"), float("nan"), "inf", "-inf", "nan", "Infinity", "1e999", 10 ** 400, -(10 ** 400), 2 ** 1024, 2 ** 1024 - 2 ** 970,
+                2 ** 1024 - 2 ** 970 - 1, True, "1.5", "1e3", "x", "",
                 [1.5], [], {}, {"a": 1}]
     if k == "string":
-        return [1, -5, 1.5, True, False, [1], ["a"], [], {}, {"a": "b"}, float("inf"), float("nan")]
+        return [1, -5, 1.5, True, False, [1], ["a"], [], {}, {"a": "b"}, float("inf"), float("nan"), 10 ** 400]
     if k == "boolean":
-        return [0, 1, 2, "false", "", "x", 0.0, 1.5, [1], [], [False], {}, {"a": True}, float("nan"), float("-inf")]
+        return [0, 1, 2, "false", "", "x", 0.0, 1.5, [1], [], [False], {}, {"a": True}, float("nan"), float("-inf"), 10 ** 400]
     if k == "id":
         return [1.5, True, [1], ["a"], {}, {"id": 1}]
     if k == "custom":
